@@ -446,6 +446,9 @@ func init() {
 		if !okf {
 			return StrVal{S: "fmt(?)"}, ctlRet
 		}
+		if sv, ok := ex.sprintfSymbolic(st, f, args[1].(SliceVal)); ok {
+			return sv, ctlRet
+		}
 		return StrVal{S: sprintf(ex, st, f, args[1].(SliceVal))}, ctlRet
 	})
 	reg("fmt.Sprint", func(ex *Exec, st *State, fr *Frame, args []Value) (Value, ctlT) {
@@ -641,3 +644,68 @@ func (ex *Exec) toNative(st *State, iv IfaceVal) (interface{}, bool) {
 }
 
 func (ex *Exec) guardAtomic(st *State, p PtrVal) {}
+
+// sprintfSymbolic handles formats made of literals and plain %s / %v verbs whose arguments are strings or byte
+// slices with symbolic content (e.g. "\x00%s\x00%s"); everything else falls back to the concrete formatter.
+func (ex *Exec) sprintfSymbolic(st *State, format string, va SliceVal) (StrVal, bool) {
+	anySym := false
+	for i := 0; i < va.Len; i++ {
+		iv := st.sliceGet(va, i).(IfaceVal)
+		switch v := iv.V.(type) {
+		case StrVal:
+			if v.T != nil {
+				anySym = true
+			}
+		case SliceVal:
+			if v.Kind == SliceNormal && v.Len > 0 {
+				for _, t := range st.sliceBytes(v) {
+					if !t.IsConst() {
+						anySym = true
+					}
+				}
+			}
+		}
+	}
+	if !anySym {
+		return StrVal{}, false
+	}
+	var out []*Term
+	arg := 0
+	for i := 0; i < len(format); i++ {
+		c := format[i]
+		if c != '%' {
+			out = append(out, C(8, uint64(c)))
+			continue
+		}
+		if i+1 >= len(format) {
+			return StrVal{}, false
+		}
+		i++
+		switch format[i] {
+		case '%':
+			out = append(out, C(8, '%'))
+		case 's', 'v':
+			if arg >= va.Len {
+				return StrVal{}, false
+			}
+			iv := st.sliceGet(va, arg).(IfaceVal)
+			arg++
+			switch v := iv.V.(type) {
+			case StrVal:
+				for k := 0; k < v.Len(); k++ {
+					out = append(out, v.At(k))
+				}
+			case SliceVal:
+				if format[i] != 's' {
+					return StrVal{}, false
+				}
+				out = append(out, st.sliceBytes(v)...)
+			default:
+				return StrVal{}, false
+			}
+		default:
+			return StrVal{}, false
+		}
+	}
+	return mkStr(out), true
+}
